@@ -115,7 +115,8 @@ struct C02 : Profile {
       "function anyv(k) return undefined is\nbegin\n  if k == 1 then\n    return \"s\";\n  end if;\n  return 7;\nend;\n", "av = anyv(0);\nprint av + 1;\n", "av = anyv(1);\nprint av + \"x\";\n",
       "tq = tab(2, 1);\ntq = tab(2, \"s\");\nprint tq.at(0) + \"!\";\n", "uq = tup(1, \"a\");\nuq = tup(\"b\", 2);\nprint uq@1 + \"c\";\n", "nn = int();\nnn = 5;\nprint nn + 1;\n", "mm:string;\nmm = \"x\";\nprint mm;\n",
       "for lq in 1 to 2 loop\n  lq2 = lq * 2;\nend loop;\nlq = \"after\";\nprint lq;\n", "tz = tab(2, 3);\nforall ez in tz loop\n  ez = ez + 1;\nend loop;\nez = \"after\";\nprint ez tz.at(0);\n",
-      "ty = tab(2, 3);\nforall ey in ty loop\n  ey = ey + 1;\nend loop;\nprint isnull(ey) isnull(ey);\nprint ey;\n" };
+      "ty = tab(2, 3);\nforall ey in ty loop\n  ey = ey + 1;\nend loop;\nprint isnull(ey) isnull(ey);\nprint ey;\n",
+      "nt = 1;\n", "nt = tup();\n", "print isnull(nt) isnull(nt.count());\n", "nv = \"s\";\nnv:tuple;\n", "print isnull(nv.count()) typeof(nv);\n", "nw = 2.5;\nnw = nt;\n", "print isnull(nw.count());\n" };
     // a compound statement whose never-executed branch re-types an existing variable twice, then separately compiled uses of the variable
     static const char* DEAD[] = {
       "dr = 1;\n", "if dr > 5 then\n  dr = \"big\";\n  print dr;\n  dr = 2.5;\nend if;\n", "print dr + 1;\n", "dq = dr * 2;\nprint dq;\n",
@@ -126,6 +127,8 @@ struct C02 : Profile {
     int ne = (int)g.range(2, 6);
     st.push_back(EXTRA[4]);   // the opaque function is declared once, in front of its uses
     for (int i = 0; i < ne; ++i) { size_t c = g.below(14); if (c == 4) continue; st.push_back(EXTRA[c]); }
+    // a variable that held another type takes a null tuple; the statements that use it are compiled later, on their own
+    if (g.chance(0.3)) { for (int i = 14; i <= 16; ++i) st.push_back(EXTRA[i]); if (g.chance(0.5)) { st.push_back(EXTRA[17]); st.push_back(EXTRA[18]); } if (g.chance(0.5)) { st.push_back(EXTRA[19]); st.push_back(EXTRA[20]); } }
     json plan; plan["property"] = "C02"; plan["ast"] = p.ast;
     json sj = json::array(); for (auto& s : st) sj.push_back(enc(s)); plan["stmts"] = sj;
     // the schedule of compile units
@@ -153,6 +156,11 @@ struct C02 : Profile {
       for (const char* n : {"ey", "ey + 1", "rt", "rt2", "av", "tq", "uq", "nn", "mm", "lq", "ez", "dr", "ds", "$c"}) ej.push_back(n);
     }
     plan["exprs"] = ej;
+    { // assignments that would change the type of a constrained name: each runs on its own in a fresh context under the per-step monitor (refusing them, at compile or at run time, is fine)
+      static const char* CP[] = {"$n = 10;\n$n = tab(3, 0);\nprint typeof($n);\n", "$t = tab(2, \"s\");\n$t = \"x\";\n", "$t = tab(2, \"s\");\n$t = tab(2, 1);\nprint $t;\n", "$t = tab(2, 1);\n$t = tab(1, tab(1, 1));\n",
+        "for i in 1 to 2 loop\n  i = tab(1, 1);\nend loop;\n", "tt = tab(2, 1);\nforall e in tt loop\n  e = tab(1, 1);\nend loop;\n", "$n = 10;\n$n = 2.5;\n", "$s = \"a\";\n$s = 1;\n", "$u:table;\n$u = tab(1, 1);\n$u = tab(1, \"s\");\nprint $u;\n",
+        "$b = true;\n$b = tab(1, true);\n", "tt = tab(2, \"a\");\nforall e in tt loop\n  e = 5;\nend loop;\n", "$w = tup(1, \"a\");\n$w = tab(1, tup(1, \"a\"));\n", "$n = 10;\nfunction setn() return integer is\nbegin\n  return 1;\nend;\n$n = tab(setn(), 0);\n"};
+      json cp = json::array(); for (int i = 0; i < 3; ++i) cp.push_back(CP[(group * 3 + i) % (sizeof(CP) / sizeof(*CP))]); plan["constraint_probes"] = cp; }
     return plan;
   }
 
@@ -168,6 +176,7 @@ struct C02 : Profile {
     if (a.foreign) fail("C02/foreign-exception", a.outcome);
     if (!a.constraint.empty()) fail("C02/type-constraint-broken", a.constraint + " (whole unit)");
     if (!mism.empty()) fail("C02/static-type-differs-from-value-type", mism);
+    for (auto& cpj : plan.value("constraint_probes", json::array())) { GroupRun c = run_grouped({cpj.get<std::string>()}, false, nullptr, nullptr); ++res.probes[c.outcome == "ok" ? "constraint_probe_accepted" : "constraint_probe_refused"]; if (c.foreign) fail("C02/foreign-exception", c.outcome); if (!c.constraint.empty()) fail("C02/type-constraint-broken", c.constraint + " in '" + printable(cpj.get<std::string>(), 80) + "'"); }
     if (a.outcome != "ok") { ++res.probes["whole_unit_not_ok"]; ++res.probes["whole_unit_not_ok: " + a.outcome]; res.trace_hash = ev.hash(); bloc_deinit_plugins(); return res; }
     std::string mode = plan.value("mode", "cuts");
     std::vector<std::string> units;
